@@ -450,6 +450,7 @@ func (fg *FunctionGenerator) GenerateCustom(ast parser2.AST, gc funcGen.Generato
 			if err != nil {
 				return nil, false, err
 			}
+			andImpl := g.GetOpImpl("&")
 			return func(st funcGen.Stack[Value], cs []Value) (Value, error) {
 				aVal, err := aFunc(st, cs)
 				if err != nil {
@@ -469,6 +470,13 @@ func (fg *FunctionGenerator) GenerateCustom(ast parser2.AST, gc funcGen.Generato
 							return nil, fmt.Errorf("not a bool: %s", TypeName(bVal))
 						}
 					}
+				} else if andImpl != nil {
+					// no short evaluation possible, use the registered operation (e.g. int&int)
+					bVal, err := bFunc(st, cs)
+					if err != nil {
+						return nil, err
+					}
+					return andImpl.Calc(st, aVal, bVal)
 				} else {
 					return nil, fmt.Errorf("not a bool: %s", TypeName(aVal))
 				}
@@ -482,6 +490,7 @@ func (fg *FunctionGenerator) GenerateCustom(ast parser2.AST, gc funcGen.Generato
 			if err != nil {
 				return nil, false, err
 			}
+			orImpl := g.GetOpImpl("|")
 			return func(st funcGen.Stack[Value], cs []Value) (Value, error) {
 				aVal, err := aFunc(st, cs)
 				if err != nil {
@@ -501,6 +510,13 @@ func (fg *FunctionGenerator) GenerateCustom(ast parser2.AST, gc funcGen.Generato
 							return nil, fmt.Errorf("not a bool: %s", TypeName(bVal))
 						}
 					}
+				} else if orImpl != nil {
+					// no short evaluation possible, use the registered operation (e.g. int|int)
+					bVal, err := bFunc(st, cs)
+					if err != nil {
+						return nil, err
+					}
+					return orImpl.Calc(st, aVal, bVal)
 				} else {
 					return nil, fmt.Errorf("not a bool: %s", TypeName(aVal))
 				}
